@@ -363,7 +363,9 @@ func propC06(j *Job) {
 					}
 					msgs := []msgSpec{{Size: size, PPI: 53}, {Size: size + 1, PPI: 51}, {Size: size + 2, PPI: 53}, {Size: size + 3, PPI: 51}}
 					if unordered && p.typ != ReliabilityTypeReliable {
+						// two control messages: they are ordered among themselves
 						msgs[2].PPI = PayloadTypeWebRTCDCEP
+						msgs[3].PPI = PayloadTypeWebRTCDCEP
 					}
 					kns := []int{0, int(p.val) + 2}
 					if p.typ == ReliabilityTypeTimed {
